@@ -250,6 +250,8 @@ def run_sessions(cmd, sessions, timeout, workers=12, big_stack=False):
 
 HEXRUN = re.compile(r'(?<=[:=])([0-9a-f]{4,})')
 ADDR = re.compile(rb'0x[0-9a-f]+')
+# the same address text as a list of character codes inside a dump: `0x` followed by hex digits
+ADDR_DUMP = re.compile(r'C48 C120(?: C(?:4[89]|5[0-7]|9[7-9]|10[0-2]))+')
 
 def canon(line):
     """mask address text inside hex-encoded printed text (the only permitted variation)"""
@@ -262,6 +264,7 @@ def canon(line):
             return h
         return ADDR.sub(b'0x?', raw).hex()
     line = HEXRUN.sub(fix, line)
+    line = ADDR_DUMP.sub('C48 C120 C63', line)
     if line.startswith('PANIC '):
         return 'PANIC'
     if line.startswith('CRASH:'):
